@@ -117,6 +117,8 @@ func H_C17_valid_request() {
 	} else {
 		missing++
 	}
+	// a series the model does not use, listed first and of a different length
+	req.Inputs = append(req.Inputs, modelInput{"unrelated", []float64{7, 8, 9, 10}})
 	if hasB {
 		req.Inputs = append(req.Inputs, modelInput{"b", b})
 	} else {
